@@ -6,6 +6,6 @@ import WowSrp.Gen.Constants
 namespace WowSrp
 
 /-- every other constructor is `Self::new(..)` on its argument, `Display` writes `as_ref()` -/
-theorem C13_source_constructors_delegate : Gen.nstrConstructorBodies = [["from_str: {Self::new(s)}", "from_string: {Self::new(s.into())}", "TryFrom<&str>::try_from: {Self::new(s)}", "TryFrom<String>::try_from: {Self::new(s)}", "Display::fmt: {f.write_str(self.as_ref())}"]] := by decide
+theorem C13_source_constructors_delegate : Gen.nstrConstructorBodies = [["from_str: {Self::new(s)}", "from_string: {Self::new(s.into())}", "TryFrom<&str>::try_from: {Self::new(s)}", "TryFrom<String>::try_from: {Self::new(s)}", "Display::fmt: {f.write_str(self.as_ref())}"]] := by decide +kernel
 
 end WowSrp
